@@ -22,7 +22,7 @@ type c18Cell struct {
 	WSS    bool `json:"wss"`
 	Hooks  int  `json:"hooks"` // 1 NetDial, 2 NetDialContext, 4 NetDialTLSContext
 	Creds  int  `json:"creds"` // 0 none, 1 user, 2 user:password
-	Cert   int  `json:"cert"`  // 0 valid, 1 other host, 2 untrusted CA
+	Cert   int  `json:"cert"`  // 0 valid, 1 other host, 2 untrusted CA, 3 valid for the PROXY's host name (https proxy only)
 	Host   int  `json:"host"`
 	TLSNil bool `json:"tls_client_config_nil"` // Dialer.TLSClientConfig == nil (system roots), after an earlier wss dial to another host
 	Refuse int  `json:"proxy_refuses"`         // 0 no, 1 status 407, 2 status 407 without reason phrase, 3 status 204 (a 2xx that is not 200), 4 status 302
@@ -36,6 +36,9 @@ var c18Cells []c18Cell
 var c18Logical = []string{"backend.test", "backend.test:8081", "192.0.2.10", "192.0.2.10:8443", "[2001:db8::5]", "[2001:db8::5]:9443"}
 
 const c18RealForms = 3 // 127.0.0.1:port, localhost:port, [::1]:port
+
+// usesRealProxyHost: the proxy URL carries the loopback address (no dial hook applies).
+func usesRealProxyHost(c c18Cell) bool { return c.Proxy != 0 && c.firstHopHook() == "" }
 
 func plainHook(hooks int) string {
 	switch {
@@ -64,8 +67,8 @@ func init() {
 					if proxy == 0 && creds > 0 {
 						continue
 					}
-					for cert := 0; cert < 3; cert++ {
-						if !wss && cert > 0 {
+					for cert := 0; cert < 4; cert++ {
+						if !wss && cert > 0 || cert == 3 && proxy != 2 {
 							continue
 						}
 						for refuse := 0; refuse < 5; refuse++ {
@@ -177,8 +180,15 @@ func runC18(ctx *core.Ctx, out *core.Out) {
 			if cell.TLSNil {
 				cert = pk.leaf("warm.test") // the certificate of the host dialed just before
 			}
-		default:
+		case 2:
 			cert = pk.otherCA.leaf(certName)
+		default:
+			// the proxy's own certificate presented by the backend: fine for the hop to the
+			// proxy, not for the URL's host
+			cert = pk.leaf("proxy.test")
+			if usesRealProxyHost(cell) {
+				cert = pk.leaf("127.0.0.1")
+			}
 		}
 		beTLS = &tls.Config{Certificates: []tls.Certificate{cert}}
 		be.mu.Lock()
@@ -470,7 +480,7 @@ func runC18(ctx *core.Ctx, out *core.Out) {
 		if cell.Cert != 0 {
 			out.Count("bad_certificates_refused", 1)
 			if bs.TLSReqs != 0 {
-				fail("request-sent-to-unverified-peer", fmt.Sprintf("the certificate is not valid for the URL host (%s) but the backend received the WebSocket request", []string{"", "other host", "untrusted CA"}[cell.Cert]))
+				fail("request-sent-to-unverified-peer", fmt.Sprintf("the certificate is not valid for the URL host (%s) but the backend received the WebSocket request", []string{"", "other host", "untrusted CA", "the proxy's host"}[cell.Cert]))
 				return
 			}
 		} else if expSuccess && bs.TLSReqs != 1 {
